@@ -377,6 +377,9 @@ impl CodeGen {
                     self.emit_mov_r64_i64(Reg::scr0(), hpbf_context_input::<C> as usize as i64);
                     self.emit_call_ind(RegMem::Reg(Reg::scr0()));
                     self.emit_post_call(live);
+                    self.emit_cmp_rm64_i8(RegMem::Reg(Reg::Rax), -1);
+                    self.emit_jcc_rel32(JmpPred::Equal, 0);
+                    self.reloc_term.push(self.code.len() - 4);
                     self.emit_store_reg::<C>(dst, Reg::Rax);
                 }
                 Instr::Out(src) => {
